@@ -35,7 +35,7 @@ ASSUMPTIONS = [
 ]
 CASE_TIMEOUT = 900
 
-OPS = ["runA", "runAp", "runB", "runA_init", "runA_edited", "copyA", "pickleA", "dcp_result", "saveload", "scenA", "sampled0", "optimA", "calibB"]
+OPS = ["runA", "runAp", "runB", "runA_init", "runA_edited", "copyA", "pickleA", "dcp_result", "saveload", "scenA", "sampled0", "optimA", "optim_refused", "calibB"]
 
 
 class Ctx:
@@ -50,6 +50,7 @@ class Ctx:
         a["progs"]["progs"].append(dict(name="P3", pops=["pa1", "pb1"], comps=["sus", "vac", "ca", "cb"], spend=250.0, uc=15.0, oneoff=True))
         a["progs"]["covouts"][1]["progs"]["P3"] = 0.7
         self.A = World(a)
+        self.A.P.progsets.append(self.A.progset)  # registered with the project (run_optimization looks it up there)
         # a parameter set carrying an explicit initialisation (saved state of a previous run)
         r = self.A.P.run_sim(self.A.parset, store_results=False)
         self.A_init = sc.dcp(self.A.parset)
@@ -158,6 +159,21 @@ def apply_op(ctx, op):
         opt = at.Optimization(adjustments=adj, measurables=[at.MaximizeMeasurable("vac", [2001, 2004])], constraints=[at.TotalSpendConstraint()], maxiters=1, maxtime=1e9)
         ins = at.optimize(A.P, opt, A.parset, A.progset, A.instr, optim_args=dict(randseed=1))
         out["optimA"] = snap_hash(ins)
+    elif op == "optim_refused":
+        # an optimisation registered with the project that cannot be started (its spending constraint is unsatisfiable) and is run over a
+        # shorter horizon than the project's: the refusal must leave the project as it was
+        from mc.props.c15 import _OptimIns
+
+        adj = [at.SpendingAdjustment("P1", 2001.0, "abs", 100.0, 5000.0), at.SpendingAdjustment("P2", 2001.0, "abs", 100.0, 5000.0)]
+        opt = at.Optimization(adjustments=adj, measurables=[at.MaximizeMeasurable("vac", [2001, 2002])], constraints=[at.TotalSpendConstraint(total_spend=[10.0], t=[2001.0])], maxiters=1, maxtime=1e9)
+        A.P.optims["refused"] = _OptimIns(opt, A.instr, end_year=2002.0)
+        try:
+            A.P.run_optimization("refused", maxiters=1, store_results=False)
+            out["optim_refused"] = "completed"
+        except Exception as e:  # noqa
+            out["optim_refused"] = type(e).__name__
+        finally:
+            A.P.optims.pop("refused")
     elif op == "calibB":
         ps = B.P.calibrate(B.parset, adjustables=["p1"], measurables=["a"], max_time=1e9, maxiters=1, randseed=1)
         out["calibB"] = snap_hash({k: (p.y_factor, p.meta_y_factor) for k, p in ps.pars.items()})
